@@ -80,6 +80,12 @@ func (f *FileStream) read(n int) ([]rune, error) {
 		// detect BOM, if BOM on the first char, then remove it directly.
 		if len(data) > 0 && data[0] == BOM {
 			data = data[1:]
+			// the read delivered the byte-order mark and nothing else (a pipe, a short read):
+			// an empty result would be taken for the end of the file and the text behind
+			// the mark would be dropped - read on instead
+			if len(data) == 0 {
+				return f.read(n)
+			}
 		}
 	}
 	return data, nil
